@@ -236,6 +236,36 @@ class Obs:
                 self.bad.append(l)
 
 
+_raw_frame = _re.compile(r'#(\d+) 0x[0-9a-f]+\s+\((/[^()]+?)\+0x([0-9a-f]+)\)')
+
+
+def resymbolize(rec):
+    """ASan's external symboliser gives up on a heavily loaded machine and prints '(module+0xoffset)' frames; the
+    violation key needs the innermost library function, so symbolise those frames here (llvm-symbolizer, offline)."""
+    cr = rec.crash
+    if cr is None or not isinstance(cr, core.SanReport):
+        return
+    if any(inlib and fn and fn != '?' for fn, inlib in cr.frames):
+        return
+    raw = _raw_frame.findall(cr.text)
+    if not raw:
+        return
+    import subprocess
+    frames = []
+    for _, mod, off in raw[:40]:
+        fn = '?'
+        try:
+            out = subprocess.run([core.SAN_ENV.get('ASAN_SYMBOLIZER_PATH', 'llvm-symbolizer'), '--obj=' + mod, '0x' + off],
+                                 capture_output=True, text=True, timeout=60).stdout.splitlines()
+            if out and out[0].strip() and out[0].strip() != '??':
+                fn = core._fn_name(out[0])
+        except Exception:
+            pass
+        frames.append((fn, 'libxerces-c' in mod))
+    if any(inlib and fn != '?' for fn, inlib in frames):
+        cr.frames = frames
+
+
 def is_match_overflow(rec):
     cr = rec.crash
     if cr is None or not isinstance(cr, core.SanReport):
@@ -753,6 +783,15 @@ def run(tier):
             if r.hang and not r.crash and not again:
                 hung.append(c)          # re-run alone once: the watchdog covers a whole batch
                 continue
+            if r.crash:
+                resymbolize(r)
+                unsym = isinstance(r.crash, core.SanReport) and not any(inlib and fn and fn != '?' for fn, inlib in r.crash.frames)
+                if unsym and not again:
+                    hung.append(c)      # no usable frame at all: re-run alone once
+                    continue
+                if unsym and not is_match_overflow(r):
+                    ck.inconclusive.append('crash report of %s has no symbolised library frame: %s' % (c.id, r.crash.key()))
+                    continue
             if r.crash or r.hang or not r.complete:
                 crashes += 1
                 if m['kind'] == 'valid' and (is_match_overflow(r) or (r.hang and not r.crash)):
@@ -819,10 +858,6 @@ def run(tier):
         hang_box['cases'] = cs
         hang_box['recs'] = run_cases(binary, cs, shards=1, tag='c11p', per_case_timeout=5.0)
     th = threading.Thread(target=hang_thread)
-    th.start()
-    pins = pinned_cases()
-    recs = run_cases(binary, pins, shards=min(J, 4), tag='c11q', per_case_timeout=5.0)
-    handle(pins, recs)
     with ProcessPoolExecutor(J) as ex:
         pos = 0
         nxt = None
@@ -831,6 +866,11 @@ def run(tier):
                 batch = allwork[pos:pos + per_round]
                 pos += len(batch)
                 nxt = [ex.submit(make_mutants if k == 'mut' else make_chunk, a) for k, a in batch]
+                # (worker processes are forked by the submits above, before any thread of this process exists)
+                th.start()
+                pins = pinned_cases()
+                recs = run_cases(binary, pins, shards=min(J, 4), tag='c11q', per_case_timeout=5.0)
+                handle(pins, recs)
             cases = []
             for f in nxt:
                 cases.extend(f.result())
@@ -1120,6 +1160,7 @@ def replay(j):
     if r is None:
         print('no record'); return 2
     if r.crash or r.hang or not r.complete:
+        resymbolize(r)
         print('observed: crash/hang: %s' % (r.crash.key() if r.crash else 'hang'))
         if r.crash:
             print(r.crash.text[:1500])
